@@ -450,6 +450,38 @@ func c17PPHTML(r *core.Run, voc *vocabulary, n int) {
 		clean := func(p string) string {
 			return strings.NewReplacer("\n", "", "\r", "", "]", "", "(", "", ")", "", ", ", ",", "\x00", "").Replace(p)
 		}
+		if i%5 == 4 {
+			// a race report: pp renders the goroutines (Snapshot.ToHTML) instead of buckets
+			rc := gen.GenRace(rr, &gen.RaceCfg{MaxOps: 3, MaxFrames: 3, CreateMode: 1})
+			rc.CRLF, rc.NoFinalEOL = false, false
+			for oi := range rc.Ops {
+				for fi := range rc.Ops[oi].Frames {
+					k++
+					mk := fmt.Sprintf("MRK%dx", k)
+					rc.Ops[oi].Frames[fi].Sym = gen.Sym{Pkg: "example.com/" + clean(rr.Pick(htmlPayloads)), Name: "F" + mk}
+					rc.Ops[oi].Frames[fi].File = "/src/" + clean(rr.Pick(htmlPayloads)) + "/" + mk + ".go"
+					m.markers = append(m.markers, mk)
+				}
+			}
+			in := rc.Render()
+			if s, _, _, _ := scanAll(in, namingOpts()); s == nil || !s.IsRace() {
+				return
+			}
+			out := filepath.Join(os.Getenv("VERIF_WORK"), fmt.Sprintf("pp-%d.html", i))
+			res := runPPEnv(in, false, "-rebase=false", "-html", out)
+			r.Eval(1)
+			r.Count("pp_html_race_runs", 1)
+			doc, err := os.ReadFile(out)
+			_ = os.Remove(out)
+			if res.Exit != 0 || err != nil {
+				r.Violation("pp-html-failed", fmt.Sprintf("pp -html on a race report: exit=%d err=%v stderr=%s", res.Exit, err, b2s(res.Stderr, 300)), "pphtml", map[string]any{"input": string(in)})
+				return
+			}
+			if key, what := checkHTML(doc, voc, m); key != "" && key != "block-count" && key != "frame-count" {
+				r.Violation("pp-html-race:"+key, what, "pphtml", map[string]any{"input": string(in)})
+			}
+			return
+		}
 		for gi := range d.Gs {
 			g := &d.Gs[gi]
 			k++
